@@ -332,7 +332,7 @@ theorem execNode_ok {ao : Bool} {nested : Nested} (hn : NestedOK ao nested) (sem
 /-! ## one synchronous superstep -/
 
 def StepOut.isPause : StepOut → Bool
-  | .pause _ _ => true
+  | .pause _ _ _ => true
   | _ => false
 
 theorem routeEvent_cases (root : Span) (k : Nat) (nd : NodeD) (ns : GState) :
